@@ -61,7 +61,7 @@ func allOptions(seed string, ws []Workload, db dbm.DB, genesisTime time.Time) ri
 	evm := newTkEVM()
 	return rig.Options{
 		Seed: seed, NumAccounts: allAccounts, Balances: StdBalances(), DB: db, GenesisTime: genesisTime,
-		EVM: evm, ExtraStoreKeys: evm.storeKeys(),
+		EVM: evm, ExtraStoreKeys: evm.storeKeys(), SubSecond: true,
 		GenesisMutator: func(cdc codec.Codec, gs map[string]json.RawMessage) {
 			for _, w := range ws {
 				w.Genesis(cdc, gs)
@@ -187,7 +187,16 @@ func (w *pricedCallWorkload) Next(block int) []rig.Tx {
 		return p
 	}
 	var out []rig.Tx
-	if block%3 == 0 {
+	// stay within whatever the service parameters currently allow (other workloads change them)
+	sp := r.K.Service.GetParams(r.Ctx())
+	qos, timeout := uint64(5), int64(10)
+	if sp.MaxRequestTimeout < timeout {
+		timeout = sp.MaxRequestTimeout
+	}
+	if uint64(sp.MaxRequestTimeout) < qos {
+		qos = uint64(sp.MaxRequestTimeout)
+	}
+	{
 		if w.nextP >= len(r.Accounts) {
 			w.nextP = 4
 		}
@@ -198,7 +207,7 @@ func (w *pricedCallWorkload) Next(block int) []rig.Tx {
 			already = already || b == p
 		}
 		if !already {
-			msg := &servicetypes.MsgBindService{ServiceName: pxSvc, Provider: p.Addr.String(), Deposit: sdk.NewCoins(sdk.NewInt64Coin(rig.BondDenom, 1_000_000)), Pricing: `{"price":"2tka"}`, QoS: 5, Options: "{}", Owner: o.Addr.String()}
+			msg := &servicetypes.MsgBindService{ServiceName: pxSvc, Provider: p.Addr.String(), Deposit: sdk.NewCoins(sdk.NewInt64Coin(rig.BondDenom, 1_000_000)), Pricing: `{"price":"2tka"}`, QoS: qos, Options: "{}", Owner: o.Addr.String()}
 			out = append(out, r.Mk(o, &pcTag{Kind: "bind", Acc: p}, msg))
 		} else {
 			// re-pricing a bound provider needs the exchange rate again (minimum deposit in the base denom)
@@ -210,7 +219,7 @@ func (w *pricedCallWorkload) Next(block int) []rig.Tx {
 	if len(w.bound) > 0 && rng.Intn(2) == 0 {
 		p := w.bound[rng.Intn(len(w.bound))]
 		c := r.Acc(rng.Intn(4) + 6)
-		msg := &servicetypes.MsgCallService{ServiceName: pxSvc, Providers: []string{p.Addr.String()}, Consumer: c.Addr.String(), Input: `{"header":{},"body":{}}`, ServiceFeeCap: sdk.NewCoins(sdk.NewInt64Coin(rig.BondDenom, 1000)), Timeout: 10}
+		msg := &servicetypes.MsgCallService{ServiceName: pxSvc, Providers: []string{p.Addr.String()}, Consumer: c.Addr.String(), Input: `{"header":{},"body":{}}`, ServiceFeeCap: sdk.NewCoins(sdk.NewInt64Coin(rig.BondDenom, 1000)), Timeout: timeout}
 		out = append(out, r.Mk(c, &pcTag{Kind: "call"}, msg))
 	}
 	return out
